@@ -405,7 +405,10 @@ impl Generator {
 
     fn r#delete(&mut self, link: &mut Link, col: &Column) -> Result<Column> {
         let (col_to, ln_to) = self.expr_pop_line_number()?;
-        let (_col_from, ln_from) = self.expr_pop_line_number()?;
+        let (col_from, ln_from) = self.expr_pop_line_number()?;
+        if col_from.is_empty() && col_to.is_empty() {
+            return Err(error!(IllegalFunctionCall, ..col; "MISSING RANGE"));
+        }
         link.push(Opcode::Literal(Val::try_from(ln_from)?))?;
         link.push(Opcode::Literal(Val::try_from(ln_to)?))?;
         link.push(Opcode::Delete)?;
